@@ -1,4 +1,5 @@
 import JxlModel.Proofs.Blend
+import JxlModel.Proofs.BlendPatches
 import Mathlib.Tactic.NormNum
 import Mathlib.Algebra.Order.Field.Rat
 /-!
@@ -307,6 +308,37 @@ theorem C05_spec_sample_unblended (img : ImgInfo) (ct : List (Plane α) → List
       ((inputChans img ct f).getD c {}).getI ((x : Int) - f.hdr.x0) ((y : Int) - f.hdr.y0) :=
   blendFrame_skip_sample img ct f bases c x y hc hx hy hs
 
+/-! ### Patches (frames whose LfGlobal carries a patch dictionary) -/
+
+/-- Inside a target rectangle every channel of the frame gets its component of the patch blend rule
+(`patchPixel`: the eight patch modes, channel by channel, the alpha channel read as already
+updated) applied to the frame's samples there and to the source frame's samples at the
+corresponding position of the source rectangle; outside the rectangle the frame is untouched. -/
+theorem C05_patch_target_sample (img : ImgInfo) (src : List (Plane α)) (p : PatchRef) (t : PatchTarget)
+    (chans : List (Plane α)) (c x y : Nat) (hc : c < chans.length)
+    (hx : x < (chans.getD c {}).w) (hy : y < (chans.getD c {}).h) :
+    ((applyTarget img src p t chans).getD c {}).get x y =
+      (let ix := (x : Int) - t.x
+       let iy := (y : Int) - t.y
+       if 0 ≤ ix ∧ ix < p.w ∧ 0 ≤ iy ∧ iy < p.h then
+         (patchPixel img.colorChannels img.ecAlphaAssoc t.infos (chans.map fun q => q.get x y)
+            (src.map fun q => q.get (p.x0 + ix.toNat) (p.y0 + iy.toNat))).getD c Scalar.zero
+       else (chans.getD c {}).get x y) :=
+  applyTarget_sample img src p t chans c x y hc hx hy
+
+/-- patch blend mode `None` on every channel group leaves the pixel as it is -/
+theorem C05_patch_mode_none_keeps (cc : Nat) (assoc : List (Option Bool)) (infos : List (PatchMode × Nat × Bool))
+    (base rv : List α) (h : ∀ i, (infos.getD i (.none, 0, false)).1 = .none) :
+    patchPixel cc assoc infos base rv = base :=
+  patchPixel_all_none cc assoc infos base rv h
+
+/-- On an image none of whose frames has a patch dictionary the patch-aware composition
+(`keyframesP`, the specification the correspondence run uses for images with patches) IS the
+sequential compositor `keyframes` of the theorems above. -/
+theorem C05_patch_free_fold_is_compositor (img : ImgInfo) (fs : List (Frame α)) :
+    keyframesP img (fs.map noPatch) = keyframes img fs :=
+  keyframesP_noPatch img fs
+
 end Pixels
 
 /-! non-vacuity of the pixel statements: a frame half outside the canvas, added onto a filled slot -/
@@ -335,6 +367,16 @@ def exBase : Canvas Int := [{ w := 3, h := 1, data := #[1, 2, 3] }]
 example : exFrame.hdr.skipBlending exImg = false := by decide
 example : (List.range 3).map (fun x => ((blendFrame exImg id exFrame [some exBase]).getD 0 {}).get x 0) = [201, 2, 3] := by
   decide
+/-- a 2x1 rectangle at (1, 0) of a 4x1 reference-only frame, added at x = 2 (half outside the frame)
+and replacing at x = 0 -/
+def exPatch : PatchRef :=
+  { ref := 1, x0 := 1, y0 := 0, w := 2, h := 1,
+    targets := [{ x := 2, y := 0, infos := [(.add, 0, false)] }, { x := 0, y := 0, infos := [(.replace, 0, false)] }] }
+def exSource : List (Plane Int) := [{ w := 4, h := 1, data := #[7, 8, 9, 10] }]
+
+example : (List.range 3).map (fun x =>
+    ((applyPatches exImg (fun _ => exSource) [exPatch] [{ w := 3, h := 1, data := #[1, 2, 3] }]).getD 0 {}).get x 0)
+    = [8, 9, 11] := by decide
 end PixelExample
 
 end Jxl.Blend
